@@ -119,6 +119,9 @@ func (pk *PublicKey[P, B, S]) UnmarshalCBOR(data []byte) error {
 	if err != nil {
 		return errs.Wrap(err).WithMessage("failed to unmarshal ECDSA public key")
 	}
+	if dto == nil {
+		return signatures.ErrInvalidArgument.WithMessage("PublicKey DTO is nil")
+	}
 
 	pk2, err := NewPublicKey(dto.PK)
 	if err != nil {
